@@ -34,13 +34,19 @@ import (
 	"github.com/google/osv-scalibr/guidedremediation"
 	"github.com/google/osv-scalibr/guidedremediation/options"
 	"github.com/google/osv-scalibr/guidedremediation/result"
+	"github.com/google/osv-scalibr/guidedremediation/upgrade"
+	"github.com/google/osv-scalibr/extractor"
 	"github.com/ossf/osv-schema/bindings/go/osvschema"
 
 	"verif/harness/hx"
 	"verif/harness/remx"
 )
 
-type stratDep struct{ Name, Req string }
+type stratDep struct {
+	Name, Req  string
+	Dev        bool   `json:",omitempty"` // npm: devDependencies (the same package may be listed in both sections)
+	Classifier string `json:",omitempty"` // Maven
+}
 type stratAdv struct {
 	ID, Pkg, Introduced, Fixed string // Introduced "" = "0", Fixed "" = never
 }
@@ -49,6 +55,13 @@ type stratCase struct {
 	Root []stratDep
 	Pkgs []remx.Pkg
 	Advs []stratAdv
+	// options of the run (the same for the isolated attempts that make up the specification)
+	Levels          map[string]int `json:",omitempty"` // upgrade.Config: package -> upgrade.Level (None, Patch, Minor, Major)
+	MaxDepth        int            `json:",omitempty"`
+	FailVersions    []string       `json:",omitempty"` // resolve client: Versions(pkg) fails for these packages (a registry error)
+	ReverseVersions bool           `json:",omitempty"` // resolve client: Versions returns the list in descending order
+	FailReqOn       string         `json:",omitempty"` // resolve client: Requirements("pkg@version") fails: re-resolving a manifest that reaches it fails
+	FailMatchOn     string         `json:",omitempty"` // vulnerability matcher: fails when asked about "pkg@version" (never part of the initial graph)
 }
 
 func (c stratCase) hexJSON() string {
@@ -68,12 +81,62 @@ func parseStratCase(h string) stratCase {
 	return c
 }
 
+// optClient injects what a real registry can do to the strategies: fail for a package, return versions in another order.
+// It is stateless, i.e. a function of its arguments.
+type optClient struct {
+	resolve.Client
+	fail    map[string]bool
+	reverse bool
+	failReq string
+}
+
+func (c optClient) Requirements(ctx context.Context, vk resolve.VersionKey) ([]resolve.RequirementVersion, error) {
+	if c.failReq != "" && vk.Name+"@"+vk.Version == c.failReq {
+		return nil, fmt.Errorf("registry error for %s", c.failReq)
+	}
+	return c.Client.Requirements(ctx, vk)
+}
+
+// failMatcher: the vulnerability matcher fails (a stateless function of its arguments) when one of the packages is `on`.
+type failMatcher struct {
+	remx.Matcher
+	on string
+}
+
+func (m failMatcher) MatchVulnerabilities(ctx context.Context, pkgs []*extractor.Package) ([][]*osvschema.Vulnerability, error) {
+	for _, p := range pkgs {
+		if p.Name+"@"+p.Version == m.on {
+			return nil, fmt.Errorf("vulnerability database error for %s", m.on)
+		}
+	}
+	return m.Matcher.MatchVulnerabilities(ctx, pkgs)
+}
+
+type vulnMatcher interface {
+	MatchVulnerabilities(ctx context.Context, pkgs []*extractor.Package) ([][]*osvschema.Vulnerability, error)
+}
+
+func (c optClient) Versions(ctx context.Context, pk resolve.PackageKey) ([]resolve.Version, error) {
+	if c.fail[pk.Name] {
+		return nil, fmt.Errorf("registry error for %s", pk.Name)
+	}
+	vs, err := c.Client.Versions(ctx, pk)
+	if err == nil && c.reverse {
+		out := make([]resolve.Version, len(vs))
+		for i, v := range vs {
+			out[len(vs)-1-i] = v
+		}
+		return out, nil
+	}
+	return vs, err
+}
+
 type stratEnv struct {
 	c        stratCase
 	override bool
 	sys      resolve.System
 	cl       resolve.Client
-	vm       remx.Matcher
+	vm       vulnMatcher
 	dir      string
 	path     string
 	table    map[string]string // task key -> "E" | canonical patch
@@ -100,6 +163,14 @@ func newStratEnv(c stratCase) *stratEnv {
 		panic(err)
 	}
 	e.cl = cl
+	if len(c.FailVersions) > 0 || c.ReverseVersions || c.FailReqOn != "" {
+		oc := optClient{Client: cl, fail: map[string]bool{}, reverse: c.ReverseVersions, failReq: c.FailReqOn}
+		for _, p := range c.FailVersions {
+			oc.fail[p] = true
+		}
+		e.cl = oc
+	}
+	var base remx.Matcher
 	for _, a := range c.Advs {
 		intro := a.Introduced
 		if intro == "" {
@@ -113,8 +184,12 @@ func newStratEnv(c stratCase) *stratEnv {
 		if eco == "npm" {
 			rt = osvschema.RangeSemVer
 		}
-		e.vm = append(e.vm, &osvschema.Vulnerability{ID: a.ID, Affected: []osvschema.Affected{{Package: osvschema.Package{Ecosystem: eco, Name: a.Pkg},
+		base = append(base, &osvschema.Vulnerability{ID: a.ID, Affected: []osvschema.Affected{{Package: osvschema.Package{Ecosystem: eco, Name: a.Pkg},
 			Ranges: []osvschema.Range{{Type: rt, Events: ev}}}}})
+	}
+	e.vm = base
+	if c.FailMatchOn != "" {
+		e.vm = failMatcher{Matcher: base, on: c.FailMatchOn}
 	}
 	dir, err := os.MkdirTemp(stratScratch, "c16strat")
 	if err != nil {
@@ -122,18 +197,26 @@ func newStratEnv(c stratCase) *stratEnv {
 	}
 	e.dir = dir
 	if !e.override {
-		var deps []string
+		var deps, dev []string
 		for _, d := range c.Root {
-			deps = append(deps, fmt.Sprintf("    %q: %q", d.Name, d.Req))
+			if d.Dev {
+				dev = append(dev, fmt.Sprintf("    %q: %q", d.Name, d.Req))
+			} else {
+				deps = append(deps, fmt.Sprintf("    %q: %q", d.Name, d.Req))
+			}
 		}
 		e.path = filepath.Join(dir, "package.json")
-		os.WriteFile(e.path, []byte("{\n  \"name\": \"root\",\n  \"version\": \"1.0.0\",\n  \"dependencies\": {\n"+strings.Join(deps, ",\n")+"\n  }\n}\n"), 0o644)
+		os.WriteFile(e.path, []byte("{\n  \"name\": \"root\",\n  \"version\": \"1.0.0\",\n  \"dependencies\": {\n"+strings.Join(deps, ",\n")+"\n  },\n  \"devDependencies\": {\n"+strings.Join(dev, ",\n")+"\n  }\n}\n"), 0o644)
 	} else {
 		var sb strings.Builder
 		sb.WriteString("<project>\n  <modelVersion>4.0.0</modelVersion>\n  <groupId>root.g</groupId>\n  <artifactId>root-a</artifactId>\n  <version>1.0</version>\n  <dependencies>\n")
 		for _, d := range c.Root {
 			g, a, _ := strings.Cut(d.Name, ":")
-			sb.WriteString("    <dependency>\n      <groupId>" + g + "</groupId>\n      <artifactId>" + a + "</artifactId>\n      <version>" + d.Req + "</version>\n    </dependency>\n")
+			sb.WriteString("    <dependency>\n      <groupId>" + g + "</groupId>\n      <artifactId>" + a + "</artifactId>\n      <version>" + d.Req + "</version>\n")
+			if d.Classifier != "" {
+				sb.WriteString("      <classifier>" + d.Classifier + "</classifier>\n")
+			}
+			sb.WriteString("    </dependency>\n")
 		}
 		sb.WriteString("  </dependencies>\n</project>\n")
 		e.path = filepath.Join(dir, "pom.xml")
@@ -161,6 +244,12 @@ func (e *stratEnv) fresh() (*guidedremediation.VerifResolvedManifest, options.Re
 		panic("strat: reading the manifest: " + err.Error())
 	}
 	opts := options.DefaultRemediationOptions()
+	for k, v := range e.c.Levels {
+		opts.UpgradeConfig.Set(k, upgrade.Level(v))
+	}
+	if e.c.MaxDepth != 0 {
+		opts.MaxDepth = e.c.MaxDepth
+	}
 	res, err := guidedremediation.VerifResolveManifest(context.Background(), e.cl, e.vm, m, &opts)
 	if err != nil {
 		panic("strat: resolving: " + err.Error())
@@ -521,11 +610,11 @@ func npmRelaxUniverse(nadv int, diamond, second, intro bool) stratCase {
 		c.Advs = append(c.Advs, stratAdv{ID: "ADV-W", Pkg: "worse"})
 	}
 	c.Pkgs = append(c.Pkgs, depP, bad)
-	c.Root = append(c.Root, stratDep{"dep", "^1.0.0"})
+	c.Root = append(c.Root, stratDep{Name: "dep", Req: "^1.0.0"})
 	if diamond {
 		c.Pkgs = append(c.Pkgs, remx.Pkg{Name: "zeta", Versions: []string{"1.0.0"}, Deps: map[string][]string{"1.0.0": {"zeta2@^1.0.0"}}},
 			remx.Pkg{Name: "zeta2", Versions: []string{"1.0.0"}, Deps: map[string][]string{"1.0.0": {"bad@*"}}})
-		c.Root = append(c.Root, stratDep{"zeta", "^1.0.0"})
+		c.Root = append(c.Root, stratDep{Name: "zeta", Req: "^1.0.0"})
 	}
 	for i := 1; i <= nadv; i++ {
 		c.Advs = append(c.Advs, stratAdv{ID: fmt.Sprintf("ADV-%c", 'A'+i-1), Pkg: "bad", Fixed: fmt.Sprintf("%d.0.0", i+1)})
@@ -533,7 +622,7 @@ func npmRelaxUniverse(nadv int, diamond, second, intro bool) stratCase {
 	if second {
 		c.Pkgs = append(c.Pkgs, remx.Pkg{Name: "dep2", Versions: []string{"1.0.0", "2.0.0"}, Deps: map[string][]string{"1.0.0": {"bad2@^1.0.0"}, "2.0.0": {"bad2@^2.0.0"}}},
 			remx.Pkg{Name: "bad2", Versions: []string{"1.0.0", "2.0.0"}})
-		c.Root = append(c.Root, stratDep{"dep2", "^1.0.0"})
+		c.Root = append(c.Root, stratDep{Name: "dep2", Req: "^1.0.0"})
 		c.Advs = append(c.Advs, stratAdv{ID: "ADV-Z", Pkg: "bad2", Fixed: "2.0.0"})
 	}
 	return c
@@ -548,10 +637,10 @@ func mavenOverrideUniverse(nadv int, diamond, second bool) stratCase {
 		bad.Versions = append(bad.Versions, fmt.Sprintf("%d.0.0", k))
 	}
 	c.Pkgs = append(c.Pkgs, remx.Pkg{Name: "g:dep", Versions: []string{"1.0.0"}, Deps: map[string][]string{"1.0.0": {"g:bad@1.0.0"}}}, bad)
-	c.Root = append(c.Root, stratDep{"g:dep", "1.0.0"})
+	c.Root = append(c.Root, stratDep{Name: "g:dep", Req: "1.0.0"})
 	if diamond {
 		c.Pkgs = append(c.Pkgs, remx.Pkg{Name: "g:zeta", Versions: []string{"1.0.0"}, Deps: map[string][]string{"1.0.0": {"g:bad@1.0.0"}}})
-		c.Root = append(c.Root, stratDep{"g:zeta", "1.0.0"})
+		c.Root = append(c.Root, stratDep{Name: "g:zeta", Req: "1.0.0"})
 	}
 	for i := 1; i <= nadv; i++ {
 		c.Advs = append(c.Advs, stratAdv{ID: fmt.Sprintf("ADV-%c", 'A'+i-1), Pkg: "g:bad", Fixed: fmt.Sprintf("%d.0.0", i+1)})
@@ -559,10 +648,71 @@ func mavenOverrideUniverse(nadv int, diamond, second bool) stratCase {
 	if second {
 		c.Pkgs = append(c.Pkgs, remx.Pkg{Name: "g:dep2", Versions: []string{"1.0.0"}, Deps: map[string][]string{"1.0.0": {"g:bad2@1.0.0"}}},
 			remx.Pkg{Name: "g:bad2", Versions: []string{"1.0.0", "1.5.0"}})
-		c.Root = append(c.Root, stratDep{"g:dep2", "1.0.0"})
+		c.Root = append(c.Root, stratDep{Name: "g:dep2", Req: "1.0.0"})
 		c.Advs = append(c.Advs, stratAdv{ID: "ADV-Z", Pkg: "g:bad2", Fixed: "1.5.0"})
 	}
 	return c
+}
+
+// optionUniverses: the branches of patchVulns / reqsToRelax / getVersionsGreater that options and registry behaviour select — an upgrade
+// level that forbids the package (None) or the needed step (Minor), MaxDepth, a registry error for one package, versions listed in
+// descending order, the same package in dependencies and devDependencies (two requirements with one VersionKey), a Maven dependency with
+// a classifier. The attempts that hit them fail or do nothing; the others must be unaffected by WHEN those happen.
+func optionUniverses() []stratCase {
+	var cs []stratCase
+	levels := map[string]int{"none": int(upgrade.None), "minor": int(upgrade.Minor)}
+	// relax
+	c := npmRelaxUniverse(2, true, true, false)
+	c.Levels = map[string]int{"dep": levels["none"]} // relax.go: UpgradeConfig.Get(...) == None -> ErrPatchImpossible; dep2 still patched
+	cs = append(cs, c)
+	c = npmRelaxUniverse(2, true, true, false)
+	c.Levels = map[string]int{"dep": levels["minor"]} // the relaxer refuses the major step
+	cs = append(cs, c)
+	c = npmRelaxUniverse(2, false, true, false)
+	// bad is constrained at depth 2 through dep (kept) and at depth 3 through far -> mid: the edge root -> far is skipped in reqsToRelax
+	c.Pkgs = append(c.Pkgs, remx.Pkg{Name: "far", Versions: []string{"1.0.0"}, Deps: map[string][]string{"1.0.0": {"mid@^1.0.0"}}},
+		remx.Pkg{Name: "mid", Versions: []string{"1.0.0"}, Deps: map[string][]string{"1.0.0": {"bad@^1.0.0"}}})
+	c.Root = append(c.Root, stratDep{Name: "far", Req: "^1.0.0"})
+	c.MaxDepth = 2
+	cs = append(cs, c)
+	c = npmRelaxUniverse(2, false, true, false)
+	c.FailVersions = []string{"dep"} // the relaxer cannot list dep's versions: attempts on bad fail, the one on bad2 does not
+	cs = append(cs, c)
+	c = npmRelaxUniverse(2, true, false, false)
+	c.ReverseVersions = true
+	cs = append(cs, c)
+	c = npmRelaxUniverse(2, true, false, false)
+	c.Root = append(c.Root, stratDep{Name: "dep-alias", Req: "npm:dep@^1.0.0"}) // one VersionKey (dep ^1.0.0), two requirement Types (plain, KnownAs)
+	cs = append(cs, c)
+	c = npmRelaxUniverse(2, false, true, false)
+	c.FailMatchOn = "bad@3.0.0" // the attempts that reach bad@3.0.0 fail while looking for vulnerabilities in the relaxed graph
+	cs = append(cs, c)
+	c = npmRelaxUniverse(2, false, true, false)
+	c.FailReqOn = "bad@3.0.0" // … fail while re-resolving
+	cs = append(cs, c)
+	// override
+	m := mavenOverrideUniverse(2, true, true)
+	m.Levels = map[string]int{"g:bad": levels["none"]}
+	cs = append(cs, m)
+	m = mavenOverrideUniverse(3, true, true)
+	m.Levels = map[string]int{"g:bad": levels["minor"]} // every fix is a major step: Allows(diff) breaks the search
+	cs = append(cs, m)
+	m = mavenOverrideUniverse(2, false, true)
+	m.FailVersions = []string{"g:bad"}
+	cs = append(cs, m)
+	m = mavenOverrideUniverse(3, true, false)
+	m.ReverseVersions = true // getVersionsGreater has to sort
+	cs = append(cs, m)
+	m = mavenOverrideUniverse(2, false, true)
+	m.Root = append(m.Root, stratDep{Name: "g:bad", Req: "1.0.0", Classifier: "tests"}) // cannot fix vulns in artifacts with classifier
+	cs = append(cs, m)
+	m = mavenOverrideUniverse(2, false, true)
+	m.FailMatchOn = "g:bad@3.0.0"
+	cs = append(cs, m)
+	m = mavenOverrideUniverse(2, false, true)
+	m.FailReqOn = "g:bad@3.0.0"
+	cs = append(cs, m)
+	return cs
 }
 
 func stratUniverses(thorough bool) []stratCase {
@@ -573,6 +723,7 @@ func stratUniverses(thorough bool) []stratCase {
 		}
 	}
 	cs = append(cs, npmRelaxUniverse(2, true, true, false), npmRelaxUniverse(2, true, false, true), mavenOverrideUniverse(2, true, true))
+	cs = append(cs, optionUniverses()...)
 	if thorough {
 		cs = append(cs, npmRelaxUniverse(3, true, true, true), npmRelaxUniverse(2, false, true, true), mavenOverrideUniverse(3, true, true))
 	}
